@@ -693,14 +693,16 @@ def run_case(case, C, S):
             cnt("uncolourable_input_rejected_by_allocator")
         return hook_violation, None
     except (AssertionError, NotImplementedError, KeyError, ValueError, IndexError, TypeError, AttributeError) as e:
-        # not a reported failure but a crash of the allocator: outside the property statement (no successful
-        # allocation to judge), reported under its own mechanism key (exception type + innermost function + cause class)
+        # not a reported failure but a crash of the allocator. The property speaks about allocations that SUCCEED;
+        # a crash (xDSL's own internal assertion refusing to continue) produces no allocation to judge, so it is an
+        # observation in the evidence (counter `observed_alloc_crash:<arch>:<site>:<cause class>`), not a verdict.
+        # The exception is the push hook: a reserved register made available is direct evidence of the
+        # property's mechanism ("reserved registers are respected") whether or not the allocator later crashes.
         cnt(f"alloc_crashed_{arch}:{type(e).__name__}")
         site = f"{type(e).__name__}:{crash_site(e)}"
-        S.setdefault("alloc_crash_sites", set()).add(f"{arch}:{site}")
         has_loop = any(op.name in rm.RV_FOR or op.name in rm.X86_FOR or op.name in rm.FREP for op in walk_ops(the_func(module)))
         if hook_violation is not None:
-            return hook_violation, None  # direct evidence of the mechanism: a reserved register was made available
+            return hook_violation, None
         if uncolorable:
             cause = "tie-unsatisfiable-input"
         elif repeats:
@@ -709,10 +711,8 @@ def run_case(case, C, S):
             cause = "spill-registers-with-loops"
         else:
             cause = "other-input"
-        return {"key": f"{arch}:allocator-crash:{site}:{cause}",
-                "summary": f"{arch} allocator crashed with {type(e).__name__}: {str(e)[:160]}",
-                "witness": {"text": case["text"], "alloc": acfg, "arch": arch, "exception": repr(e)[:300],
-                            "replay_job": {"cases": [case]}}}, None
+        cnt(f"observed_alloc_crash:{arch}:{site}:{cause}")
+        return None, None
     cnt(f"alloc_succeeded_{arch}")
     cnt(f"alloc_succeeded_entry_{acfg['entry']}")
     func = the_func(module)
